@@ -1,10 +1,225 @@
-/- Line-protocol handlers for C16 (placeholder until the property is built). -/
-import PandoraModel.Model.Basic
+/- Line-protocol handlers for C16 (model `Model/Dataset.lean`). -/
+import PandoraModel.Model.Dataset
 
 namespace Pandora.Driver.C16
 open Lean (Json)
+open Pandora Pandora.Dataset
 
-def handle (op : String) (_j : Json) : Except String Json :=
-  throw s!"unknown op {op}"
+/-! ### decoding -/
+
+def fvalOfJson (j : Json) : Except String FVal :=
+  match j with
+  | Json.str "nan" => .ok .nan
+  | Json.str "inf" => .ok .pinf
+  | Json.str "-inf" => .ok .ninf
+  | _ => (ratOfJson j).map FVal.num
+
+def fvalToJson : FVal → Json
+  | .nan => Json.str "nan"
+  | .pinf => Json.str "inf"
+  | .ninf => Json.str "-inf"
+  | .num q => ratToJson q
+
+def arrOfJson {α} (f : Json → Except String α) (j : Json) : Except String (Array α) :=
+  match j with
+  | Json.arr a => a.mapM f
+  | _ => .error s!"not an array: {j.compress.take 60}"
+
+def fn2 {α} [Inhabited α] (a : Array (Array α)) : Nat → Nat → α :=
+  fun r c => (a.getD r #[]).getD c default
+
+def fn3 {α} [Inhabited α] (a : Array (Array (Array α))) : Nat → Nat → Nat → α :=
+  fun b r c => ((a.getD b #[]).getD r #[]).getD c default
+
+def grid2OfJson {α} [Inhabited α] (f : Json → Except String α) (j : Json) : Except String (Nat → Nat → α) :=
+  (arrOfJson (arrOfJson f) j).map fn2
+
+def grid3OfJson {α} [Inhabited α] (f : Json → Except String α) (j : Json) : Except String (Nat → Nat → Nat → α) :=
+  (arrOfJson (arrOfJson (arrOfJson f)) j).map fn3
+
+def optOfJson {α} (f : Json → Except String α) (j : Json) : Except String (Option α) :=
+  match j with
+  | Json.null => .ok none
+  | _ => (f j).map some
+
+def nameOfJson (j : Json) : Except String (Option String) := optOfJson strOfJson j
+
+def classifOfJson (j : Json) : Except String Classif := do
+  let names ← field j "names" >>= listOfJson nameOfJson
+  let px ← field j "px" >>= grid3OfJson intOfJson
+  return { names, px }
+
+def dispOfJson (j : Json) : Except String DispIn :=
+  match j with
+  | Json.str "absent" => .ok .absent
+  | Json.null => .ok .null
+  | Json.arr #[a, b] => do return .pair (← intOfJson a) (← intOfJson b)
+  | _ => do
+    let g ← field j "grid" >>= grid3OfJson fvalOfJson
+    return .grid g
+
+def inputOfJson (j : Json) : Except String Input := do
+  let rows ← field j "rows" >>= natOfJson
+  let cols ← field j "cols" >>= natOfJson
+  let bandsJ ← field j "bands"
+  let nbands ← match bandsJ with
+    | Json.arr a => pure a.size
+    | _ => throw "bands: not an array"
+  let im ← grid3OfJson fvalOfJson bandsJ
+  let bandNames ← field j "band_names" >>= listOfJson nameOfJson
+  let nodata ← field j "nodata" >>= fvalOfJson
+  let mask ← optOfJson (grid2OfJson intOfJson) (fieldD j "mask" Json.null)
+  let disp ← dispOfJson (fieldD j "disp" (Json.str "absent"))
+  let classif ← optOfJson classifOfJson (fieldD j "classif" Json.null)
+  let segm ← optOfJson (grid2OfJson intOfJson) (fieldD j "segm" Json.null)
+  return { rows, cols, nbands, bandNames, im, nodata, mask, disp, classif, segm }
+
+def paramsOfJson (j : Json) : Except String Params := do
+  let b (k : String) := field j k >>= boolOfJson
+  let i (k : String) := field j k >>= intOfJson
+  let cmp ← field j "maskCmp" >>= strOfJson
+  let maskCmp ← match cmp with
+    | "gt" => pure MaskCmp.gt
+    | "ne" => pure MaskCmp.ne
+    | s => throw s!"unknown maskCmp {s}"
+  return { colOffStrict := ← b "colOffStrict", rowOffStrict := ← b "rowOffStrict",
+           colEndStrict := ← b "colEndStrict", rowEndStrict := ← b "rowEndStrict",
+           maskCmp, validPixels := ← i "validPixels", noDataMask := ← i "noDataMask",
+           replacement := ← i "replacement" }
+
+def roiOfJson (j : Json) : Except String Roi := do
+  let col ← field j "col"
+  let row ← field j "row"
+  let ms ← field j "margins" >>= listOfJson intOfJson
+  match ms with
+  | [ml, mu, mr, md] =>
+    return { colFirst := ← field col "first" >>= intOfJson, colLast := ← field col "last" >>= intOfJson,
+             rowFirst := ← field row "first" >>= intOfJson, rowLast := ← field row "last" >>= intOfJson,
+             mLeft := ml, mUp := mu, mRight := mr, mDown := md }
+  | _ => throw "margins: expected 4 integers"
+
+/-- a dataset observed on the implementation (same layout as `dsToJson` produces) -/
+def dsOfJson (j : Json) : Except String DS := do
+  let rows ← field j "rows" >>= natOfJson
+  let cols ← field j "cols" >>= natOfJson
+  let nbands ← field j "nbands" >>= natOfJson
+  let bandNames ← optOfJson (listOfJson nameOfJson) (fieldD j "band_names" Json.null)
+  let im ← field j "im" >>= grid3OfJson fvalOfJson
+  let rowA ← field j "row" >>= arrOfJson intOfJson
+  let colA ← field j "col" >>= arrOfJson intOfJson
+  let disp ← optOfJson (grid3OfJson fvalOfJson) (fieldD j "disp" Json.null)
+  let msk ← optOfJson (grid2OfJson intOfJson) (fieldD j "msk" Json.null)
+  let classif ← optOfJson classifOfJson (fieldD j "classif" Json.null)
+  let segm ← optOfJson (grid2OfJson intOfJson) (fieldD j "segm" Json.null)
+  let noDataImg ← field j "no_data_img" >>= fvalOfJson
+  -- a coordinate array of the wrong length must not pass `roi_coords`: pad with an impossible value
+  let rowCoord := fun i => if i < rowA.size then rowA.getD i 0 else -1000000007
+  let colCoord := fun i => if i < colA.size then colA.getD i 0 else -1000000007
+  return { rows, cols, nbands, bandNames, im, rowCoord, colCoord, disp, msk, classif, segm, noDataImg }
+
+/-! ### encoding -/
+
+def tab2 {α} (rows cols : Nat) (f : Nat → Nat → α) (enc : α → Json) : Json :=
+  Json.arr ((List.range rows).map fun r => Json.arr ((List.range cols).map fun c => enc (f r c)).toArray).toArray
+
+def tab3 {α} (n rows cols : Nat) (f : Nat → Nat → Nat → α) (enc : α → Json) : Json :=
+  Json.arr ((List.range n).map fun b => tab2 rows cols (f b) enc).toArray
+
+def nameToJson : Option String → Json
+  | some s => Json.str s
+  | none => Json.null
+
+def dsToJson (d : DS) : Json :=
+  mkObj [
+    ("rows", natToJson d.rows), ("cols", natToJson d.cols), ("nbands", natToJson d.nbands),
+    ("band_names", match d.bandNames with
+      | some l => listToJson nameToJson l
+      | none => Json.null),
+    ("im", tab3 d.nbands d.rows d.cols d.im fvalToJson),
+    ("row", Json.arr ((List.range d.rows).map fun i => intToJson (d.rowCoord i)).toArray),
+    ("col", Json.arr ((List.range d.cols).map fun i => intToJson (d.colCoord i)).toArray),
+    ("disp", match d.disp with
+      | some f => tab3 2 d.rows d.cols f fvalToJson
+      | none => Json.null),
+    ("msk", match d.msk with
+      | some f => tab2 d.rows d.cols f intToJson
+      | none => Json.null),
+    ("classif", match d.classif with
+      | some cl => mkObj [("names", listToJson nameToJson cl.names),
+                          ("px", tab3 cl.names.length d.rows d.cols cl.px intToJson)]
+      | none => Json.null),
+    ("segm", match d.segm with
+      | some f => tab2 d.rows d.cols f intToJson
+      | none => Json.null),
+    ("no_data_img", fvalToJson d.noDataImg)]
+
+def windowToJson : Option Window → Json
+  | some w => Json.arr #[intToJson w.colOff, intToJson w.rowOff, intToJson w.width, intToJson w.height]
+  | none => Json.null
+
+def clausesToJson (l : List (String × Bool)) : Json :=
+  listToJson (fun (kv : String × Bool) => Json.arr #[Json.str kv.1, Json.bool kv.2]) l
+
+/-! ### ops -/
+
+/-- `C16.window`: model and specification of `get_window` on one ROI -/
+def windowResult (p : Params) (roi : Roi) (width height : Int) : Json :=
+  mkObj [("model", windowToJson (getWindow p roi width height)),
+         ("spec", windowToJson (windowSpec roi width height)),
+         ("wf", Json.bool roi.wf), ("at_edge", Json.bool (roi.atEdge width height)),
+         ("edge_free", Json.bool (edgeFree p roi width height))]
+
+def opWindow (j : Json) : Except String Json := do
+  let p ← field j "params" >>= paramsOfJson
+  let roi ← field j "roi" >>= roiOfJson
+  let width ← field j "width" >>= intOfJson
+  let height ← field j "height" >>= intOfJson
+  return windowResult p roi width height
+
+/-- `C16.windows`: the same on a batch of ROIs -/
+def opWindows (j : Json) : Except String Json := do
+  let p ← field j "params" >>= paramsOfJson
+  let rois ← field j "rois" >>= listOfJson roiOfJson
+  let width ← field j "width" >>= intOfJson
+  let height ← field j "height" >>= intOfJson
+  return listToJson (fun roi => windowResult p roi width height) rois
+
+/-- `C16.create`: the model's dataset (or `"refused"`) -/
+def opCreate (j : Json) : Except String Json := do
+  let p ← field j "params" >>= paramsOfJson
+  let inp ← field j "input" >>= inputOfJson
+  let roi ← optOfJson roiOfJson (fieldD j "roi" Json.null)
+  let out := createDataset p inp roi
+  return mkObj [("model", match out with
+                  | some d => dsToJson d
+                  | none => Json.str "refused"),
+                ("mask_ok", Json.bool (maskOk p inp)), ("input_wf", Json.bool inp.wf)]
+
+/-- `C16.spec`: the specification evaluated on datasets observed on the implementation.
+    `impl_full` is the read without ROI; `impl_roi` (with `roi`) the read with it, or `"refused"`. -/
+def opSpec (j : Json) : Except String Json := do
+  let inp ← field j "input" >>= inputOfJson
+  let full ← field j "impl_full" >>= dsOfJson
+  let readCl := specReadClauses inp 0 0 full
+  let roiJ := fieldD j "roi" Json.null
+  match roiJ with
+  | Json.null => return mkObj [("read", clausesToJson readCl), ("roi", Json.null)]
+  | _ =>
+    let roi ← roiOfJson roiJ
+    let implRoiJ ← field j "impl_roi"
+    let out ← match implRoiJ with
+      | Json.str "refused" => pure none
+      | _ => (dsOfJson implRoiJ).map some
+    return mkObj [("read", clausesToJson readCl),
+                  ("roi", clausesToJson (specRoiClauses inp roi full out)),
+                  ("window_spec", windowToJson (windowSpec roi inp.cols inp.rows))]
+
+def handle (op : String) (j : Json) : Except String Json :=
+  match op with
+  | "C16.window" => opWindow j
+  | "C16.windows" => opWindows j
+  | "C16.create" => opCreate j
+  | "C16.spec" => opSpec j
+  | _ => throw s!"unknown op {op}"
 
 end Pandora.Driver.C16
